@@ -11,6 +11,8 @@ CONSTANTS MaxFrames,       \* bound on the length of the server frame sequence
           VarModes         \* subset of {"none","empty","filtered","allunset"}: variables passed to the call
 
 \* kinds named by the property statement
+\* ("nonjson": any text that is not a JSON document -- garbage, the empty string, whitespace only; the harness rotates the
+\*  three shapes over the frame positions)
 \* ("error_nopayload": an error frame whose payload is missing or an empty object -- still an error frame: multi-error)
 JudgedKinds == {"ack", "next", "ping", "pong", "complete", "error", "error_nopayload", "nonjson", "unknown", "notype", "nextnodata"}
 \* kinds that are explored but whose treatment the statement does not fix (DESIGN 8.4)
